@@ -101,13 +101,20 @@ def tlc_config(ctx, idx, c):
     return name, res, scns
 
 
-def run_harness(ctx, scns, tag):
+class _Shard:
+    """go_test_inpkg only needs ctx.scratch (it writes its overlay file there); one per parallel call."""
+
+    def __init__(self, scratch):
+        self.scratch = scratch
+
+
+def _run_shard(ctx, scns, tag):
     d = ctx.sub("c19-" + tag)
     scn_path, out_path = os.path.join(d, "scn.ndjson"), os.path.join(d, "out.ndjson")
     with open(scn_path, "w") as f:
         for s in scns:
             f.write(json.dumps({k: s[k] for k in ("id", "schema", "src", "dst", "sep", "recs")}) + "\n")
-    r = vlib.go_test_inpkg(ctx, "cmd/csvimport", "zz_verif_csv_test.go", run="TestVerifCsv",
+    r = vlib.go_test_inpkg(_Shard(d), "cmd/csvimport", "zz_verif_csv_test.go", run="TestVerifCsv",
                            env_extra={"VERIF_C19_SCN": scn_path, "VERIF_C19_OUT": out_path,
                                       "VERIF_C19_DIR": os.path.join(d, "work"), "VERIF_C19_RENDERS": ",".join(RENDERS)},
                            timeout=1500)
@@ -121,6 +128,21 @@ def run_harness(ctx, scns, tag):
                 res[o["id"]] = o["r"]
     if len(res) != len(scns):
         raise vlib.Undecided("csvimport harness answered %d of %d scenarios\n%s" % (len(res), len(scns), (r.stdout + r.stderr)[-2000:]))
+    return res
+
+
+def run_harness(ctx, scns, tag):
+    """Execute the scenarios on the real code: one `go test` process per shard, each with its own
+    working directory (the engine's data/ directory is relative to the process's cwd)."""
+    n = 1 if len(scns) < 4000 else max(1, min(6, vlib.NCPU // 2))
+    if n == 1:
+        return _run_shard(ctx, scns, tag)
+    _run_shard(ctx, scns[:1], tag + "-warm")          # compile once before the parallel calls
+    shards = [scns[i::n] for i in range(n)]
+    res = {}
+    with concurrent.futures.ThreadPoolExecutor(max_workers=n) as ex:
+        for part in ex.map(lambda a: _run_shard(ctx, a[1], "%s-%d" % (tag, a[0])), list(enumerate(shards))):
+            res.update(part)
     return res
 
 
@@ -159,7 +181,7 @@ def report(ctx, bad):
     for s, r, sig in bad:
         groups.setdefault(sig, []).append((s, r))
     for sig, xs in sorted(groups.items()):
-        xs.sort(key=lambda x: (len(x[0]["recs"]), len(x[1].get("csv", ""))))
+        xs.sort(key=lambda x: (len(x[0]["recs"]), 0 if all(r["cls"] == "valid" for r in x[0]["recs"]) else 1, len(x[1].get("csv", ""))))
         for s, r in xs[:PER_SIGNATURE]:
             payload = dict(kind="csvimport-replay", signature=sig, failures_with_this_signature=len(xs), scenario=show(s),
                            scenario_raw={k: s[k] for k in ("schema", "src", "dst", "sep", "recs", "exp", "taint", "config")},
@@ -199,8 +221,7 @@ def run_replay(ctx):
         if sig:
             bad.append((s, r, sig))
     report(ctx, bad)
-    vlib.write_evidence(ctx, "exploration", dict(evaluations=sum(len(r["m"]) for r in res), distinct_nontrivial=0, rule="replay of one recorded scenario",
-                                                 samples=[show(s)], replay_of=ctx.replay), assumptions=ASSUMPTIONS)
+    # a replay does not rewrite the tier's evidence file
 
 
 def run(ctx):
